@@ -7,6 +7,7 @@ function per C function / loop of `lib/tar` and of the conversion code of `tar2s
 import Sqfs.Proofs.TarNumber
 import Sqfs.Proofs.TarHeader
 import Sqfs.Proofs.TarHeaderRT
+import Sqfs.Proofs.TarPaxRT
 import Sqfs.Proofs.TarSparse
 import Sqfs.Proofs.TarSparseChunk
 import Sqfs.Proofs.TarConv
@@ -181,6 +182,38 @@ theorem schily_record_length (key value : Bytes) :
     simp only [hp, List.length_append, decStr_length, prefix_digit_len_correct, List.length_cons, List.length_nil]
     omega
 
+/--
+**PAX record round trip.**  For every key without NUL and '=' and every value (arbitrary bytes: NUL, '=', newline
+included), the record parser of `read_pax_header` applied to the record `write_schily_xattr` emits — followed by
+anything — consumes exactly the record and delivers exactly that key/value pair (prepended to the list, as the C code does).
+-/
+theorem pax_record_roundtrip (st : PaxState) (key value rest : Bytes) (hk : ∀ x ∈ key, x ≠ 0 ∧ x ≠ 61) :
+    paxLine false st (schilyRecord key value ++ rest) =
+      some ({ st with out := { st.out with xattr := (key, value) :: st.out.xattr } }, (schilyRecord key value).length) :=
+  paxLine_schily st key value rest hk
+
+/-- … and the whole payload of a `pax/xattrN` member, any number of xattrs, is read back completely: the header gets
+    exactly the written pairs (in reverse order — the reader prepends), `set_by_pax` stays untouched. -/
+theorem pax_payload_roundtrip (xs : List (Bytes × Bytes)) (out : Decoded) (mask : Nat)
+    (hk : ∀ kv ∈ xs, ∀ x ∈ kv.1, x ≠ 0 ∧ x ≠ 61) :
+    readPaxHeader false ((xs.map fun kv => schilyRecord kv.1 kv.2).flatten) out mask =
+      some ({ out with xattr := xs.reverse ++ out.xattr }, mask) := by
+  unfold readPaxHeader
+  rw [paxLoop_schily xs _ _ hk]
+  · rfl
+  · have : xs.length ≤ ((xs.map fun kv => schilyRecord kv.1 kv.2).flatten).length := by
+      induction xs with
+      | nil => simp
+      | cons kv t ih =>
+        have h1 := ih (fun kv' h' => hk kv' (List.mem_cons_of_mem _ h'))
+        have h2 : 1 ≤ (schilyRecord kv.1 kv.2).length := by
+          cases h : schilyRecord kv.1 kv.2 with
+          | nil => exact absurd h (schilyRecord_ne_nil _ _)
+          | cons _ _ => simp
+        simp only [List.map_cons, List.flatten_cons, List.length_append, List.length_cons]
+        omega
+    omega
+
 /-! ## header round trip -/
 
 /-
@@ -193,7 +226,6 @@ Full statement (NOT proved; evaluated on the real code on every run instead — 
               xattr := xs.reverse } rest
       (for every entry kind, name/link lengths on both sides of 100 — GNU 'L'/'K' records —, every numeric encoding,
        xattrs through the SCHILY.xattr PAX record)
-  pax_record_roundtrip : paxLine false st (schilyRecord k v ++ rest) = some ({st with xattr := (k, v) :: st.out.xattr}, len)
 
 What is missing: slicing the 17 fields back out of the 512-byte record (`slice (updateChecksum (rawHeader …)) off n`),
 and the loop of `read_header` over up to three extension records.  What is proved (this theorem and the ones above):
